@@ -331,7 +331,9 @@ def map(
         )
     else:
         zmin = 0.0
-        zspacing = zmax - zmin
+        # There is a single plane of pixels at z = 0: any positive spacing will do
+        # (zmax can be negative when no window size was given)
+        zspacing = 0.5 * (xspacing + yspacing)
         zcenters = [0.0]
 
     xg, yg, zg = np.meshgrid(xcenters, ycenters, zcenters, indexing="ij")
